@@ -14,6 +14,7 @@ import NgoVerif.DriverUnused
 import NgoVerif.DriverMinMax
 import NgoVerif.DriverSymmetry
 import NgoVerif.DriverDuplication
+import NgoVerif.DriverSumRewrite
 /-!
 # Line-protocol driver: one s-expression request per line on stdin, one s-expression answer per line on stdout.
 
@@ -60,7 +61,7 @@ def runMakeUnique (u : UniqueVars) : List Sexp → List String → Option (List 
   | _, _ => none
 
 /-- handlers contributed by the per-pass driver files; tried in order -/
-def extHandlers : List (Sexp → Option Sexp) := [handleCleanup, handleBinding, handleNormalize, handleSumAgg, handleDependency, handleUnused, handleMinMax, handleSymmetry, handleDuplication]
+def extHandlers : List (Sexp → Option Sexp) := [handleCleanup, handleBinding, handleNormalize, handleSumAgg, handleDependency, handleUnused, handleMinMax, handleSymmetry, handleDuplication, handleSumRewrite]
 
 def tryExt (req : Sexp) : List (Sexp → Option Sexp) → Sexp
   | [] => unsupported "unknown op"
